@@ -586,6 +586,90 @@ def cross_registry_job(arg):
     return rep
 
 
+class UserT(object):
+    """a small table; its codec stores it as a directory with one file per column."""
+
+    def __init__(self, cols):
+        self.cols = cols
+
+    def __eq__(self, o):
+        return isinstance(o, UserT) and o.cols == self.cols
+
+
+def produce_table(n):
+    from vp import vlog
+
+    vlog.hit("produce_table")
+    return UserT({"a": list(range(n)), "b": ["x"] * n})
+
+
+def dir_codec_job(arg):
+    """A user codec whose stored form is a directory (one file per column): kept, kept again (served, not recomputed),
+    loaded in the same and in another process."""
+    cache = arg
+    import dds
+    from dds.structures import CodecProtocol, ProtocolRef, SupportedType
+    from vp import vlog
+
+    class TableDirCodec(CodecProtocol):
+        def ref(self):
+            return ProtocolRef("user.table_dir")
+
+        def handled_types(self):
+            return [SupportedType("checks.c17.UserT")]
+
+        def serialize_into(self, blob, loc):
+            os.makedirs(str(loc))
+            for k, v in blob.cols.items():
+                with open(os.path.join(str(loc), k + ".json"), "w") as f:
+                    json.dump(v, f)
+
+        def deserialize_from(self, loc):
+            cols = {}
+            for fn in sorted(os.listdir(str(loc))):
+                with open(os.path.join(str(loc), fn)) as f:
+                    cols[fn[:-5]] = json.load(f)
+            return UserT(cols)
+
+    rep = core.Report("C17")
+    rep.evaluations = 1
+    dds.accept_module("checks")
+    case = {"dir_codec": True, "cache": cache}
+    want = UserT({"a": [0, 1, 2], "b": ["x"] * 3})
+    with core.Scratch("vp_c17d_") as root:
+        def proc(args):
+            dds.set_store("local", internal_dir=os.path.join(root, "i"), data_dir=os.path.join(root, "d"), cache_objects=cache)
+            from dds import _api
+
+            _api._store().codec_registry().add_codec(TableDirCodec())
+            vlog.clear()
+            out = []
+            for a in args:
+                try:
+                    out.append(("ok", dds.keep("/c17d/t", produce_table, 3) if a == "keep" else dds.load("/c17d/t"), vlog.snapshot()))
+                except BaseException as e:
+                    out.append(("exc", "%s: %s" % (type(e).__name__, str(e)[:120]), vlog.snapshot()))
+                vlog.clear()
+            return out
+
+        a = core.fork_call(proc, ["keep", "keep", "load"], timeout=300)
+        b = core.fork_call(proc, ["load", "keep"], timeout=300)
+    if isinstance(a, core.JobFailed) or isinstance(b, core.JobFailed):
+        rep.inconclusive.append("directory codec job: %r %r" % (a, b))
+        return rep
+    for who, obs, logs in (("first process", a, [["produce_table"], [], []]), ("second process", b, [[], []])):
+        for i, ((st, v, lg), el) in enumerate(zip(obs, logs)):
+            rep.count("reads_checked")
+            if st != "ok" or v != want:
+                rep.violate("a result whose codec stores a directory (cache_objects=%r): %s, step %d gives %s" % (cache, who, i, v if st != "ok" else repr(v.cols)[:60]), case, mechanism="directory-blob-not-read-back")
+                return rep
+            if lg != el:
+                rep.violate("a result whose codec stores a directory (cache_objects=%r): %s, step %d executed %r (expected %r): the stored result was not used" % (cache, who, i, lg, el), case, mechanism="directory-blob-not-read-back")
+                return rep
+    rep.nontriv(("c17dir", repr(cache)))
+    return rep
+
+
 def fork_job(arg, prop="C17"):
     """Worker processes forked from a process whose DBFS store has already transferred blobs read different paths at the
     same time (their downloads are lined up by a barrier in the fake dbutils): each gets its own value."""
@@ -676,7 +760,7 @@ def run(tier, seed):
                 jobs.append((kind, sc, tags))
     fjobs = [(None, ["str_ascii", "str_nonascii"]), (None, ["str_ascii", "nested", "bytes_plain"]), (None, ["frame0", "obj"])]
     ljobs = [(kind, refs, cache) for kind in ("local", "dbfs") for refs in (("acme.string", "zip.bytes"), ("arch.pickle", "fast.pandas"), ("my.codec.string", "bytes")) for cache in (None, 2)]
-    results = core.fork_map(lambda j: {"f": fork_job, "j": job, "l": lookalike_job, "x": cross_registry_job}[j[0]](j[1]), [("j", j) for j in jobs] + [("f", j) for j in fjobs] + [("l", j) for j in ljobs] + [("x", "dbfs"), ("x", "local")], timeout=900)
+    results = core.fork_map(lambda j: {"f": fork_job, "j": job, "l": lookalike_job, "x": cross_registry_job, "d": dir_codec_job}[j[0]](j[1]), [("j", j) for j in jobs] + [("f", j) for j in fjobs] + [("l", j) for j in ljobs] + [("x", "dbfs"), ("x", "local"), ("d", None), ("d", 2)], timeout=900)
     for r in results[len(jobs):]:
         if isinstance(r, core.JobFailed):
             rep.inconclusive.append("fork job: %r" % (r,))
@@ -701,6 +785,9 @@ def replay(payload):
         return rep
     if c.get("lookalike"):
         rep.merge(lookalike_job((c["kind"], tuple(c["refs"]), c["cache"])))
+        return rep
+    if c.get("dir_codec"):
+        rep.merge(dir_codec_job(c["cache"]))
         return rep
     if c.get("cross_registry"):
         rep.merge(cross_registry_job(c["first"]))
